@@ -31,11 +31,11 @@ theorem splitLine_record (cfg : Config) (sw : Switches) (ops : FloatOps F) (txt 
 
 theorem globalLine_record (cfg : Config) (sw : Switches) (ops : FloatOps F) (txt : F → List Nat) (mult : Option Nat)
     (nowMs : Nat) (e : Entry F) (ns0 : Str) (more : List Str) (hns : cfg.namespaces = ns0 :: more)
-    (hx : extrasOk cfg = true) (g : List (Str × Metric F)) :
+    (g : List (Str × Metric F)) :
     globalLine (toEmfCfg cfg sw) ((baseDims cfg e).map jarrStrings) (printElems ((declsOf ops mult g).map declJson))
         (natDigits ((timestampOf e).getD nowMs)) (fieldBytes txt (fieldsOf ops mult g)) (strBytes (strItems e))
       = lineOf txt cfg.namespaces.length nowMs (mkRecord cfg ops mult e none g cfg.extra) := by
-  rw [globalLine_eq_print cfg sw txt ns0 more hns hx]
+  rw [globalLine_eq_print cfg sw txt ns0 more hns]
   simp only [lineOf, recordJson, mkRecord, Option.getD_none, List.map_nil, List.append_nil, List.nil_append, List.map_id']
   rw [List.take_left' (by simp), List.drop_left' (by simp)]
   have hstr : ∀ x : Str × Str, mvalJson txt (MVal.str x.2) = JVal.str x.2 := fun _ => rfl
@@ -92,8 +92,7 @@ theorem splitLines_eq (cfg : Config) (sw : Switches) (ops : FloatOps F) (txt : F
         · rw [ha]
           exact splitLine_record cfg sw ops txt mult nowMs e ns0 more hns k a.index (Rk cfg k e)
 
-/-- **Stage 3 (`emf_refines_spec_split`).** For every configuration with at least one namespace whose extra
-directives name their units, every switch setting, number type / float operations / text function, multiplicity
+/-- **Stage 3 (`emf_refines_spec_split`).** For every configuration with at least one namespace, every switch setting, number type / float operations / text function, multiplicity
 that fits a `u64` (or none), clock value and EVERY entry accepted by `validate` — metrics with per-metric
 dimensions routed to split records included —: the operational model on a fresh formatter returns `ok`, and
 the bytes it writes are exactly the lines `print (recordJson r) ++ "\n"` of the declarative model's records
@@ -103,7 +102,7 @@ order, `c14_map_order_irrelevant`), then the no-dimension record unless a split 
 no-dimension record has no metric member. -/
 theorem emf_refines_spec_split (cfg : Config) (sw : Switches) (ops : FloatOps F) (txt : F → List Nat)
     (mult : Option Nat) (nowMs : Nat) (e : Entry F)
-    (hns : cfg.namespaces ≠ []) (hx : extrasOk cfg = true) (hm : multOk mult) (hv : validate cfg sw e = []) :
+    (hns : cfg.namespaces ≠ []) (hm : multOk mult) (hv : validate cfg sw e = []) :
     records cfg sw ops mult e = .ok (emit cfg ops mult e) ∧
     runEmf cfg sw ops txt mult nowMs e =
       (.ok, ((emit cfg ops mult e).map (lineOf txt cfg.namespaces.length nowMs)).flatten) := by
@@ -165,7 +164,7 @@ theorem emf_refines_spec_split (cfg : Config) (sw : Switches) (ops : FloatOps F)
   simp at hspec
   rw [hft] at hspec
   obtain ⟨hl, hany⟩ := splitLines_eq cfg sw ops txt mult nowMs e ns0 more hnseq _ _ hspec
-  rw [hl, hany, globalLine_record cfg sw ops txt mult nowMs e ns0 more hnseq hx, emit_eq]
+  rw [hl, hany, globalLine_record cfg sw ops txt mult nowMs e ns0 more hnseq, emit_eq]
   have hfb : (fieldBytes txt (fieldsOf ops mult (routedTo cfg none (metricItems e)))).isEmpty
       = (fieldsOf ops mult (routedTo cfg none (metricItems e))).isEmpty := by
     cases h : fieldsOf ops mult (routedTo cfg none (metricItems e)) with
